@@ -3,7 +3,7 @@
    the documentation only).  Statements only; proofs are `exact <lemma of LayoutProofs>`. *)
 From Coq Require Import ZArith List Bool Lia.
 Import ListNotations.
-From XO Require Import Slots Strides Perm BufOps Types Format Check LayoutProofs RoundTrip Complete.
+From XO Require Import Slots Strides Perm BufOps Types Format Check LayoutProofs RoundTrip Complete Address.
 Open Scope Z_scope.
 
 (* header words: 8-byte little-endian two's complement, exact on the whole int64 range *)
@@ -41,12 +41,18 @@ Proof. exact layout_ok_sound. Qed.
    under every axis order): wherever in a buffer the documented image of a value sits (padding
    bytes arbitrary), the strict decoder -- written from the documentation only, checking every
    redundant header word -- returns exactly that value and the image length as the size.
-   (Types with Ref/UnionRef have no [enc] image: the statement is about reference-free values;
-   references are C08/C09.  [len img < 2^62]: header words are int64.) *)
+   Reference slots are open cells of the image; what they must hold is [targets_ok] (below).
+   [len img < 2^62]: header words are int64. *)
 Theorem C05_decode_encode : forall t v img m off,
-  enc t v = Some img -> sits img m off -> len img < 2^62 -> dec t m off = Some (v, len img).
+  enc t v = Some img -> sits img m off -> len img < 2^62 -> targets_ok t v m off -> dec t m off = Some (v, len img).
 Proof. exact RT_all. Qed.
-Theorem C05_decode_encode_in_buffer : forall t v img pre bs post,
+(* [targets_ok]: what the reference slots of a value with Ref / UnionRef parts must hold (the null word,
+   or an offset relative to the slot such that the referent's image sits there, recursively; plus the
+   member index for union references).  It is trivially true of reference-free types: *)
+Theorem C05_decode_encode_reference_free : forall t v img m off, has_refs t = false ->
+  enc t v = Some img -> sits img m off -> len img < 2^62 -> dec t m off = Some (v, len img).
+Proof. exact RT_ref_free. Qed.
+Theorem C05_decode_encode_in_buffer : forall t v img pre bs post, has_refs t = false ->
   enc t v = Some img -> cells_match img bs = true -> len img < 2^62 ->
   dec t (pre ++ bs ++ post) (len pre) = Some (v, len img).
 Proof. exact dec_enc_buffer. Qed.
@@ -59,10 +65,19 @@ Theorem C05_strides_address : forall sh order isz idx, Perm.is_perm order -> len
 Proof. exact Perm.strides_address. Qed.
 
 (* ... and complete: bytes that carry the documented image of the value are never rejected *)
-Theorem C05_checker_complete : forall c img,
+Theorem C05_checker_complete : forall c img, has_refs (lc_ty c) = false ->
   enc (lc_ty c) (lc_val c) = Some img -> len img = lc_size c -> lc_size c < 2^62 ->
   cells_match img (lc_bytes c) = true -> layout_ok c = None.
 Proof. exact layout_ok_complete. Qed.
+
+(* every field, the data area of every array and every dynamically sized item start on a slot boundary
+   relative to the object they belong to (positions as computed from the image, CApi/Address.v) *)
+Theorem C05_fields_slot_aligned : forall fs es i, Address.field_off fs es i mod 8 = 0.
+Proof. exact Address.field_off_aligned. Qed.
+Theorem C05_array_data_slot_aligned : forall st shape, arr_header st shape mod 8 = 0.
+Proof. exact Address.arr_header_aligned. Qed.
+Theorem C05_dynamic_items_slot_aligned : forall item shape order sh es c, csize item = None -> item_pos item shape order sh es c mod 8 = 0.
+Proof. exact Address.item_pos_aligned_dyn. Qed.
 
 (* compound types: decode∘encode on a struct holding a scalar, a string, a dynamic F-ordered
    2-D array of int32 and an F-ordered 2x2 array of strings, embedded at offset 3
@@ -85,7 +100,11 @@ Print Assumptions C05_decode_string.
 Print Assumptions C05_match_sits.
 Print Assumptions C05_checker_sound.
 Print Assumptions C05_decode_encode.
+Print Assumptions C05_decode_encode_reference_free.
 Print Assumptions C05_decode_encode_in_buffer.
 Print Assumptions C05_static_size.
 Print Assumptions C05_strides_address.
 Print Assumptions C05_checker_complete.
+Print Assumptions C05_fields_slot_aligned.
+Print Assumptions C05_array_data_slot_aligned.
+Print Assumptions C05_dynamic_items_slot_aligned.
